@@ -209,6 +209,32 @@ def record_events(path):
     return ev
 
 
+def rebuilt_tuples(path):
+    """XML -> NeuroMLXMLParser events -> NetworkBuilder objects -> what the accessors of the rebuilt objects say"""
+    from neuroml.hdf5.NetworkBuilder import NetworkBuilder
+    from neuroml.hdf5.NeuroMLXMLParser import NeuroMLXMLParser
+    b = NetworkBuilder()
+    NeuroMLXMLParser(b).parse(path)
+    doc = b.get_nml_doc()
+    conns, inputs = [], []
+    for net in doc.networks:
+        for pr in net.projections:
+            for c in pr.connections:
+                conns.append([pr.id, int(c.id), c.get_pre_cell_id(), c.get_post_cell_id(), c.get_pre_segment_id(),
+                              float(c.get_pre_fraction_along()), c.get_post_segment_id(), float(c.get_post_fraction_along()), 0.0, 1.0])
+            for c in pr.connection_wds:
+                conns.append([pr.id, int(c.id), c.get_pre_cell_id(), c.get_post_cell_id(), c.get_pre_segment_id(),
+                              float(c.get_pre_fraction_along()), c.get_post_segment_id(), float(c.get_post_fraction_along()),
+                              float(c.get_delay_in_ms()), float(c.weight)])
+        for il in net.input_lists:
+            for i in il.input:
+                inputs.append([il.id, int(i.id), i.get_target_cell_id(), i.get_segment_id(), float(i.get_fraction_along()), 1.0])
+            for i in il.input_ws:
+                inputs.append([il.id, int(i.id), i.get_target_cell_id(), i.get_segment_id(), float(i.get_fraction_along()),
+                               float(i.get_weight())])
+    return {"connections": conns, "inputs": inputs, "summary": doc.summary()}
+
+
 def do_doc(d, tmp):
     out = {"summary": None, "events": None, "error": None, "xml_error": None}
     sink = io.StringIO()
@@ -226,6 +252,8 @@ def do_doc(d, tmp):
                 path = os.path.join(tmp, "doc.nml")
                 writers.NeuroMLWriter.write(doc, path)
                 out["events"] = record_events(path)
+                if d.get("builder"):
+                    out["rebuilt"] = rebuilt_tuples(path)
         except BaseException as e:  # noqa: BLE001
             out["xml_error"] = "%s: %s" % (type(e).__name__, str(e)[:300])
     return out
